@@ -81,63 +81,67 @@ REQS = {
     "VIN1":   ((0xC1, 0x20, 0, 0, 7),          "vendor", ("stall",)),         # vendor request reusing code 0x20, interface recipient
 }
 
-ENUM_Q = ["GDD64", "SA33", "GDD18", "GDC9", "GDC255", "GDS0", "GDS2", "SC1", "GDQ"]
+ENUM = ["GDD64", "GDD18", "GDD8", "GDC9", "GDC64", "GDC255", "GDS0", "GDS1", "GDS2", "GDS3", "GDS2S", "GDSEE", "GDQ", "SA33", "SA35", "SC1", "SC0", "GC"]
+CLASS = ["SLC", "SCLS", "SBRK", "GLC", "SEC", "C20IN", "VND0", "VIN", "VOUT", "VIN1"]
+ALL = ENUM + CLASS
+NOLIMIT = 99        # control-only alphabets reach a fixpoint: the exploration is exhaustive for request sequences of any length
 
 
 def configs(tier):
     if tier == "quick":
         cs = [
-            # whole control transfers in every order
-            dict(name="enum-xfer", mps=64, gap=1, pace=1, gran="xfer", reqs=ENUM_Q, depth=4),
-            dict(name="enum-xfer-b", mps=8, gap=3, pace=1, gran="xfer", reqs=["GDD8", "GDC64", "GDS1", "GDS3", "GDS2S", "GDSEE", "SA35", "SC1", "GC"], depth=4),
-            dict(name="class-xfer", mps=2, gap=1, pace=1, gran="xfer", reqs=["SC1", "SLC", "SCLS", "GLC", "SEC", "C20IN", "VND0", "VIN", "VOUT", "GDD18"], depth=3,
-                 data=dict(sizes=[1], push=[1], inmodes=["ack"])),
-            # transaction by transaction, transfers may be abandoned, ACKs may be lost
-            dict(name="enum-txn", mps=64, gap=1, pace=1, gran="txn", reqs=["GDC255", "SA33", "SC1"], abandon=1, lost=1, depth=6),
-            dict(name="class-txn", mps=2, gap=2, pace=1, gran="txn", reqs=["SLC", "SEC", "VIN", "SCLS"], abandon=1, lost=1, depth=5, pre=["SA33", "SC1"]),
+            # control requests only: whole transfers in every order / transaction by transaction with abandoned transfers,
+            # lost ACKs, early status stages and SOFs
+            dict(name="ctl-xfer-all", mps=64, gap=1, pace=1, gran="xfer", reqs=ALL, depth=NOLIMIT),
+            dict(name="ctl-txn-enum", mps=64, gap=1, pace=1, gran="txn", reqs=ENUM, abandon=1, lost=1, early=1, sof=1, depth=NOLIMIT),
+            dict(name="ctl-txn-class", mps=8, gap=3, pace=2, gran="txn", reqs=CLASS + ["SA33", "SC1", "GDC255"], abandon=1, lost=1, early=1, sof=1, depth=NOLIMIT),
+            # control requests and data traffic
+            dict(name="class-xfer-data", mps=2, gap=1, pace=1, gran="xfer", reqs=["SC1", "SLC", "SCLS", "GLC", "SEC", "C20IN", "VIN", "VOUT", "GDC255"], depth=4,
+                 data=dict(sizes=[1, 2], push=[1], inmodes=["ack"])),
             dict(name="slc-txn-data", mps=2, gap=1, pace=1, gran="txn", reqs=["SLC", "GLC"], depth=5, pre=["SA33", "SC1"],
                  data=dict(sizes=[1, 2], push=[1], inmodes=["ack"])),
+            dict(name="enum-txn-data", mps=3, gap=2, pace=1, gran="txn", reqs=["GDC255", "VOUT"], abandon=1, depth=5, pre=["SC1"],
+                 data=dict(sizes=[3], push=[1], inmodes=["ack"])),
             # data both ways
             dict(name="data-m2", mps=2, gap=1, pace=1, gran="xfer", reqs=["SLC"], depth=5, pre=["SA33", "SC1"],
                  data=dict(sizes=[0, 1, 2], push=[0, 1], inmodes=["ack", "lost", "noack"], feed=2, rep=1, in3=1)),
             dict(name="data-m3", mps=3, gap=2, pace=1, gran="xfer", reqs=[], depth=5, pre=["SC1"],
-                 data=dict(sizes=[1, 2, 3], push=[0, 1], inmodes=["ack", "lost"], feed=3)),
-            dict(name="data-m4-pace", mps=4, gap=1, pace=2, gran="xfer", reqs=["SC1"], depth=4, pre=["SA33", "SC1"],
-                 data=dict(sizes=[0, 3, 4], push=[0, 1], burst=4, inmodes=["ack"])),
+                 data=dict(sizes=[1, 2, 3], push=[0, 1], inmodes=["ack", "lost"], feed=3, sof=1)),
+            dict(name="data-m4-pace", mps=4, gap=1, pace=2, gran="xfer", reqs=["SLC"], depth=5, pre=["SA33", "SC1"],
+                 data=dict(sizes=[0, 3, 4], push=[0, 1], burst=4, inmodes=["ack", "lost"])),
             dict(name="data-m64", mps=64, gap=1, pace=1, gran="xfer", reqs=["SLC"], depth=4, pre=["SA33", "SC1"],
                  data=dict(sizes=[0, 1, 63, 64], push=[1], burst=64, inmodes=["ack", "lost"])),
-            dict(name="reconf", mps=2, gap=1, pace=1, gran="xfer", reqs=["SC1", "SC0"], depth=5, pre=["SC1"],
+            dict(name="reconf", mps=2, gap=1, pace=1, gran="xfer", reqs=["SC1", "SC0"], depth=6, pre=["SC1"],
                  data=dict(sizes=[1], push=[1], inmodes=["ack"])),
         ]
     else:
         cs = [
-            dict(name="enum-xfer", mps=64, gap=1, pace=1, gran="xfer",
-                 reqs=["GDD64", "GDD18", "GDD8", "GDC9", "GDC64", "GDC255", "GDS0", "GDS1", "GDS2", "GDS3", "GDS2S", "GDSEE", "GDQ", "SA33", "SA35", "SC1", "SC0", "GC"], depth=5),
-            dict(name="enum-xfer-b", mps=8, gap=3, pace=2, gran="xfer", reqs=ENUM_Q + ["GDD8", "GDC64", "GDSEE", "GC"], depth=5),
-            dict(name="all-xfer", mps=4, gap=1, pace=1, gran="xfer",
-                 reqs=["GDD18", "GDC255", "SA33", "SC1", "SLC", "SCLS", "SBRK", "GLC", "SEC", "C20IN", "VND0", "VIN", "VOUT", "VIN1"], depth=4,
+            dict(name="ctl-xfer-all", mps=64, gap=1, pace=1, gran="xfer", reqs=ALL, depth=NOLIMIT),
+            dict(name="ctl-xfer-all-b", mps=8, gap=4, pace=2, gran="xfer", reqs=ALL, depth=NOLIMIT),
+            dict(name="ctl-txn-all", mps=64, gap=1, pace=1, gran="txn", reqs=ALL, abandon=1, lost=1, early=1, sof=1, depth=NOLIMIT),
+            dict(name="ctl-txn-all-b", mps=4, gap=3, pace=2, gran="txn", reqs=ALL, abandon=1, lost=1, early=1, sof=1, depth=NOLIMIT),
+            dict(name="ctl-txn-all-c", mps=2, gap=6, pace=1, gran="txn", reqs=ALL, abandon=1, lost=1, early=1, depth=NOLIMIT),
+            dict(name="all-xfer-data", mps=4, gap=1, pace=1, gran="xfer", reqs=["GDD18", "GDC255", "SA33", "SC1", "SLC", "SCLS", "GLC", "SEC", "C20IN", "VND0", "VIN", "VOUT"], depth=5,
                  data=dict(sizes=[1, 4], push=[1], inmodes=["ack"])),
-            dict(name="class-xfer", mps=2, gap=2, pace=1, gran="xfer", reqs=["SC1", "SLC", "SCLS", "GLC", "SEC", "VND0", "VIN", "VOUT"], depth=5,
+            dict(name="class-xfer-data", mps=2, gap=2, pace=1, gran="xfer", reqs=["SC1", "SLC", "SCLS", "GLC", "SEC", "VND0", "VIN", "VOUT"], depth=6,
                  data=dict(sizes=[1, 2], push=[0, 1], inmodes=["ack", "lost"])),
-            dict(name="enum-txn", mps=64, gap=1, pace=1, gran="txn", reqs=["GDC255", "GDD18", "SA33", "SC1", "GDQ"], abandon=1, lost=1, early=1, depth=7),
-            dict(name="enum-txn-b", mps=8, gap=4, pace=2, gran="txn", reqs=["GDC64", "GDS2", "SA35", "SC1", "GC"], abandon=1, lost=1, early=1, depth=7),
-            dict(name="class-txn", mps=2, gap=2, pace=1, gran="txn", reqs=["SLC", "SEC", "VIN", "SCLS", "VOUT", "GLC"], abandon=1, lost=1, depth=6, pre=["SA33", "SC1"]),
-            dict(name="class-txn-b", mps=2, gap=1, pace=1, gran="txn", reqs=["SLC", "C20IN", "VND0", "SC1"], abandon=1, lost=1, depth=7, pre=["SC1"]),
-            dict(name="slc-txn-data", mps=2, gap=1, pace=1, gran="txn", reqs=["SLC", "GLC", "VOUT"], depth=6, pre=["SA33", "SC1"],
+            dict(name="slc-txn-data", mps=2, gap=1, pace=1, gran="txn", reqs=["SLC", "GLC", "VOUT"], lost=1, depth=7, pre=["SA33", "SC1"],
                  data=dict(sizes=[1, 2], push=[0, 1], inmodes=["ack", "lost"])),
-            dict(name="enum-txn-data", mps=3, gap=1, pace=1, gran="txn", reqs=["GDC255", "SC1"], abandon=1, depth=6, pre=["SA33", "SC1"],
-                 data=dict(sizes=[2, 3], push=[1], inmodes=["ack"])),
+            dict(name="enum-txn-data", mps=3, gap=1, pace=1, gran="txn", reqs=["GDC255", "SC1", "VOUT"], abandon=1, depth=7, pre=["SA33", "SC1"],
+                 data=dict(sizes=[2, 3], push=[1], inmodes=["ack"], sof=1)),
             dict(name="data-m2", mps=2, gap=1, pace=1, gran="xfer", reqs=["SLC"], depth=7, pre=["SA33", "SC1"],
                  data=dict(sizes=[0, 1, 2], push=[0, 1], inmodes=["ack", "lost", "noack"], feed=2, rep=1, in3=1)),
             dict(name="data-m2-gap", mps=2, gap=3, pace=2, gran="xfer", reqs=["VIN"], depth=7, pre=["SC1"],
-                 data=dict(sizes=[0, 1, 2], push=[0, 1], inmodes=["ack", "lost"], feed=3, rep=1)),
+                 data=dict(sizes=[0, 1, 2], push=[0, 1], inmodes=["ack", "lost"], feed=3, rep=1, sof=1)),
             dict(name="data-m3", mps=3, gap=2, pace=1, gran="xfer", reqs=[], depth=7, pre=["SC1"],
-                 data=dict(sizes=[1, 2, 3], push=[0, 1], inmodes=["ack", "lost", "noack"], feed=3)),
-            dict(name="data-m4-pace", mps=4, gap=1, pace=2, gran="xfer", reqs=["SC1", "SLC"], depth=6, pre=["SA33", "SC1"],
+                 data=dict(sizes=[1, 2, 3], push=[0, 1], inmodes=["ack", "lost", "noack"], feed=3, sof=1)),
+            dict(name="data-m4-pace", mps=4, gap=1, pace=2, gran="xfer", reqs=["SLC"], depth=7, pre=["SA33", "SC1"],
                  data=dict(sizes=[0, 1, 3, 4], push=[0, 1], burst=4, inmodes=["ack", "lost"], rep=1)),
+            dict(name="data-m8", mps=8, gap=1, pace=1, gran="xfer", reqs=[], depth=6, pre=["SA35", "SC1"],
+                 data=dict(sizes=[1, 7, 8], push=[0, 1], burst=8, inmodes=["ack", "lost"], feed=9)),
             dict(name="data-m64", mps=64, gap=1, pace=1, gran="xfer", reqs=["SLC"], depth=6, pre=["SA33", "SC1"],
                  data=dict(sizes=[0, 1, 63, 64], push=[0, 1], burst=64, inmodes=["ack", "lost"], rep=1)),
-            dict(name="reconf", mps=2, gap=1, pace=1, gran="xfer", reqs=["SC1", "SC0", "SA33"], depth=7, pre=["SC1"],
+            dict(name="reconf", mps=2, gap=1, pace=1, gran="xfer", reqs=["SC1", "SC0", "SA33"], depth=8, pre=["SC1"],
                  data=dict(sizes=[1, 2], push=[1], inmodes=["ack", "lost"])),
         ]
     return cs
@@ -304,9 +308,10 @@ class AcmSpec(Spec):
     def goals(self):
         g = []
         kinds = {REQS[r][2][0] for r in self.reqs + self.pre}
-        cats = {REQS[r][1] for r in self.reqs if REQS[r][2][0] == "stall"}
+        # (requests whose STALL the vacuity guard insists on: no OUT data stage, not the 0x20-in-IN-direction corner)
+        cats = {REQS[r][1] for r in self.reqs if REQS[r][2][0] == "stall" and r != "C20IN" and (REQS[r][0][4] == 0 or REQS[r][0][0] & 0x80)}
         if "desc" in kinds: g.append("descriptor-read")
-        if any(r in ("GDC255",) for r in self.reqs): g.append("descriptor-two-packets")
+        if "GDC255" in self.reqs: g.append("descriptor-two-packets")
         if "nodesc" in kinds: g.append("absent-descriptor-stalled")
         if "addr" in kinds: g.append("address-set")
         if "config" in kinds: g.append("configured")
@@ -320,7 +325,7 @@ class AcmSpec(Spec):
             d = self.data
             if self.max_depth >= 4 and len([s for s in d["sizes"] if s]) and max(d["sizes"]) * 2 > self.cap: g.append("rx-packet-into-full-buffer")
             if "lost" in d["inmodes"]: g.append("tx-retransmission-dropped-by-host")
-            if self.gran == "txn" and self.reqs: g.append("bulk-inside-control-transfer")
+        if self.gran == "txn" and self.reqs and (self.data or self.cfg.get("sof")): g.append("bulk-inside-control-transfer")
         return g
 
     # ---- exploration interface
@@ -357,6 +362,7 @@ class AcmSpec(Spec):
                 if stage in ("dout", "sout") or (stage == "din" and self.early and ctl[2] > 0):
                     acts.append(("cout",))
         d = self.data
+        if self.cfg.get("sof") or (d and d.get("sof")): acts.append(("sof",))
         if d and env.cfgd:
             for L in d["sizes"]:
                 acts.append(("out", L, 0)); acts.append(("out", L, 1))
@@ -413,6 +419,10 @@ class AcmSpec(Spec):
             host.rdy = 0
             host.settle(cur)
             new = env
+        elif kind == "sof":
+            host.send(cur, U.sof(0x2A5), False)
+            self.cover["sof"] += 1
+            new = env
         elif kind == "in3":
             resp = host.send(cur, U.token(U.IN, env.addr, STATUS_EP), True)
             k = U.classify_device_packet(resp) if resp is not None else None
@@ -421,7 +431,7 @@ class AcmSpec(Spec):
             new = env
         else:
             raise AssertionError(a)
-        if kind in ("out", "outrep", "in", "infeed", "in3") and env.ctl is not None: self.cover["bulk-inside-control-transfer"] += 1
+        if kind in ("out", "outrep", "in", "infeed", "in3", "sof") and env.ctl is not None: self.cover["bulk-inside-control-transfer"] += 1
         new = self._check_rx(cur, env, new, a)
         self._check_tx_deliverable(cur, new, a)
         self.outcomes.add((kind, a[1] if len(a) > 1 else None, new.ctl[1] if new.ctl else None, len(new.rxq), len(new.txq)))
